@@ -231,6 +231,13 @@ func (u *UpstreamPlain) exchangeNet(
 	// err is already wrapped inside processConn.
 	resp, err = u.processConn(ctx, conn, connsPool, network, req, buf, bufReqLen)
 	if isExpectedConnErr(err) {
+		// The buffer may contain a part of a response now, so pack the request
+		// again.
+		bufReqLen, err = u.packReq(network, buf, req)
+		if err != nil {
+			return nil, fmt.Errorf("packing request: %w", err)
+		}
+
 		conn, err = connsPool.Create(ctx)
 		if err != nil {
 			return nil, fmt.Errorf("creating connection: %w", err)
